@@ -6,7 +6,7 @@ From Synnax Require Import Common.Base Aspen.KV.
 Local Open Scope N_scope.
 
 (* which kvStore.apply the tree under test has (see KV.store_put) *)
-Definition fx_tree : bool := false.
+Definition fx_tree : bool := true.
 
 (* ---- what the harness observed after a step ---- *)
 (* engine row: key, has value, value, digest state (0 none, 1 ok, 2 digest of another key),
@@ -223,21 +223,23 @@ Definition obs0 (ns : list N) : obs := Obs 0 (map (fun n => RNode n 0 [] []) ns)
    1x = an entry was replaced by an older one, 2x = an entry is not the LWW maximum of what the node
    received, with x = 1: at a DB.Set/Delete step and the two entries are led by different nodes (the
         leaseholder path applies without consulting the digest),
-        x = 2: at a recovery apply step (recovery applies without consulting the digest),
+        x = 2: at a recovery apply that was separated from its high-water read, or whose two
+               entries are led by different nodes (recovery applies without consulting the digest),
         x = 0: anything else;
    3x = quiesced without convergence, x = 1: a restart happened (the gossip store is in memory
-        only), 2: a recovery happened, 3: three or more nodes (SIR stops after T+1 redundant
-        feedbacks from any peers), 0: none of these. *)
+        only), 3: no restart, three or more nodes (SIR stops after T+1 redundant feedbacks from
+        any peers), 0: two nodes, no restart. *)
 Definition is_write (s : step_t) : bool := match s with SWrite _ _ _ _ | SDel _ _ => true | _ => false end.
 Definition is_recapply (s : step_t) : bool := match s with SRecEnd _ _ | SRecover _ _ => true | _ => false end.
 Definition is_restart (s : step_t) : bool := match s with SRestart _ => true | _ => false end.
 
+Definition is_recend (s : step_t) : bool := match s with SRecEnd _ _ => true | _ => false end.
 Definition step_suffix (s : step_t) (other_leader : bool) : N :=
-  if is_recapply s then 2 else if is_write s && other_leader then 1 else 0.
+  if is_recend s || (is_recapply s && other_leader) then 2
+  else if is_write s && other_leader then 1 else 0.
 
 Definition quiescence_code (c_nodes : list N) (steps : list step_t) : N :=
   if existsb is_restart steps then 31
-  else if existsb is_recapply steps then 32
   else if (2 <? length c_nodes)%nat then 33 else 30.
 
 Fixpoint mon_run (m : mstate) (po : obs) (l : list (step_t * obs)) : option N :=
